@@ -87,6 +87,10 @@ def make_may_raise(noexcept, types):
     return may_raise
 
 
+TECHNIQUE += '; strided-memoryview lint (address of a non-contiguous view handed on as a unit-stride pointer); the entry point interpreted with per-layer tuples of mismatched length'
+
+EXPLANATION += ' R06.14 every memoryview whose address is taken is declared contiguous; R06.12 also: a per-layer tuple shorter or longer than layer_types is refused before any tuple is indexed.'
+
 def run(chk):
     repo = Repo(chk.repo)
     ms = repo.by_path('TidalPy/RadialSolver/solver.pyx')
